@@ -84,8 +84,8 @@ type c14TDevJS struct {
 var (
 	c14Profs  = []string{"p1", "p2"}
 	c14Devs   = []string{"d1", "d2", "d3"}
-	c14Linked = map[string]netip.Addr{"i1": netip.MustParseAddr("192.0.2.1"), "i2": netip.MustParseAddr("2001:db8::2")}
-	c14Ded    = map[string]netip.Addr{"e1": netip.MustParseAddr("198.51.100.1"), "e2": netip.MustParseAddr("198.51.100.2")}
+	c14Linked = map[string]netip.Addr{"i1": netip.MustParseAddr("192.0.2.1"), "i2": netip.MustParseAddr("fe80::1234%eth0")} // a zoned link-local address: the zone is part of the key
+	c14Ded    = map[string]netip.Addr{"e1": netip.MustParseAddr("198.51.100.1"), "e2": netip.MustParseAddr("::ffff:198.51.100.2")}
 	c14Humans = []string{"h1", "h2"}
 )
 
@@ -264,22 +264,27 @@ func (b *c14Backend) buildProfile(p string) *agd.Profile {
 		bm = &dnsmsg.BlockingModeCustomIP{IPv4: []netip.Addr{netip.MustParseAddr("10.0.0.1")}}
 	default:
 		bm = &dnsmsg.BlockingModeCustomIP{IPv4: []netip.Addr{netip.MustParseAddr("10.0.0.2")},
-			IPv6: []netip.Addr{netip.MustParseAddr("fd00::1")}}
+			IPv6: []netip.Addr{netip.MustParseAddr([]string{"fd00::1", "::ffff:10.0.0.3"}[r.Intn(2)])}}
 	}
 	var acc access.Profile = access.EmptyProfile{}
 	if r.Intn(3) > 0 {
 		acc = access.NewDefaultProfile(&access.ProfileConfig{
-			AllowedNets:          []netip.Prefix{netip.MustParsePrefix(fmt.Sprintf("10.%d.0.0/16", r.Intn(200)))},
-			BlockedNets:          []netip.Prefix{netip.MustParsePrefix("2.2.2.0/24")},
-			AllowedASN:           []geoip.ASN{geoip.ASN(1 + r.Intn(100))},
-			BlockedASN:           []geoip.ASN{2},
+			AllowedNets: []netip.Prefix{netip.MustParsePrefix(fmt.Sprintf("10.%d.0.0/16", r.Intn(200))),
+				netip.MustParsePrefix([]string{"192.0.2.7/32", "2001:db8::7/128", "10.0.0.0/8", "fd00::/8"}[r.Intn(4)])},
+			// boundary prefix lengths: "block everybody" (allow-list mode), single hosts
+			BlockedNets: [][]netip.Prefix{{netip.MustParsePrefix("2.2.2.0/24")},
+				{netip.MustParsePrefix("0.0.0.0/0"), netip.MustParsePrefix("::/0")},
+				{netip.MustParsePrefix("::/0")}, {netip.MustParsePrefix("203.0.113.9/32"), netip.MustParsePrefix("2.0.0.0/7")}}[r.Intn(4)],
+			AllowedASN: []geoip.ASN{geoip.ASN(1 + r.Intn(100))},
+			BlockedASN: []geoip.ASN{[]geoip.ASN{2, 65535, 65536, 4294967295}[r.Intn(4)]},
 			BlocklistDomainRules: []string{fmt.Sprintf("block%d.test", r.Intn(10))},
 		})
 	}
 	var rl agd.Ratelimiter = agd.GlobalRatelimiter{}
 	if r.Intn(2) == 0 {
 		rl = agd.NewDefaultRatelimiter(&agd.RatelimitConfig{
-			ClientSubnets: []netip.Prefix{netip.MustParsePrefix("5.5.5.0/24")},
+			ClientSubnets: [][]netip.Prefix{{netip.MustParsePrefix("5.5.5.0/24")}, {netip.MustParsePrefix("0.0.0.0/0")},
+				{netip.MustParsePrefix("2001:db8:5::/48"), netip.MustParsePrefix("5.5.5.5/32")}}[r.Intn(3)],
 			RPS:           uint32(1 + r.Intn(500)),
 			Enabled:       true,
 		}, 1*datasize.KB)
@@ -403,6 +408,7 @@ type c14Cleanup struct {
 }
 
 type c14World struct {
+	broken bool
 	t       *testing.T
 	be      *c14Backend
 	db      *Default
@@ -538,7 +544,12 @@ func (w *c14World) do(s c14Step, ev *c14Event) bool {
 			w.t.Fatalf("refresh: %v", err)
 		}
 		if (s.A == "FullSync") != w.be.full {
-			w.t.Fatalf("harness: wanted %s, storage saw full=%v", s.A, w.be.full)
+			// the database asked for another kind of sync than its own sync times (as written, and as
+			// restored from the file cache) call for: an observation about the code, recorded and judged
+			// by the trace spec; the behaviour ends here because the stepper's bookkeeping no longer applies
+			ev.Restore = fmt.Sprintf("sync kind: the schedule calls for a %s, the storage was asked full=%v", s.A, w.be.full)
+			w.broken = true
+			return true
 		}
 		if w.be.full {
 			w.stored = w.be.lastResp
@@ -779,6 +790,13 @@ func c14Run(t *testing.T, out *vhOut, beh int, rng *rand.Rand, steps []c14Step, 
 		ev := c14Event{Ev: s.A, D: s.D, P: s.P, K: s.K, Beh: beh, Restore: ""}
 		if !w.do(s, &ev) {
 			continue
+		}
+		if w.broken {
+			// keep the probes of the previous event: the spec's ghost is not advanced for this step
+			ev.Ev = "Diverged"
+			w.probe(&ev)
+			out.Emit(ev)
+			break
 		}
 		w.probe(&ev)
 		out.Emit(ev)
